@@ -39,10 +39,10 @@ NULL = -1
 # ----------------------------------------------------------------------------------
 
 def many_trees_desc(rng, max_nodes=8, max_segs=8, p_gap=0.15, p_root=0.25, scale=None,
-                    max_sites=4, squash=0.85, churn=2):
+                    max_sites=4, squash=0.85, churn=2, p_internal=0.2, min_segs=1):
     """Own generator: arbitrary number of segments (gen_ts.random_desc caps at 4)."""
     n = rng.randrange(2, max_nodes + 1)
-    nseg = rng.randrange(1, max_segs + 1)
+    nseg = rng.randrange(min_segs, max_segs + 1)
     # segment end-points on the integer lattice, not necessarily consecutive
     L = nseg + rng.randrange(0, 3)
     bps = [0] + sorted(rng.sample(range(1, L), nseg - 1)) + [L]
@@ -57,7 +57,7 @@ def many_trees_desc(rng, max_nodes=8, max_segs=8, p_gap=0.15, p_root=0.25, scale
         times.append(t)
     nodes = []
     for i in range(n):
-        samp = (times[i] == 0 and rng.random() < 0.9) or (times[i] > 0 and rng.random() < 0.2)
+        samp = (times[i] == 0 and rng.random() < 0.9) or (times[i] > 0 and rng.random() < p_internal)
         nodes.append([1 if samp else 0, times[i], NULL, NULL, ""])
 
     def attach(u):
@@ -756,7 +756,7 @@ class NavRandom(Family):
 
     def describe(self, case, obs):
         T = len(obs["tab"]["bps"]) - 1
-        return {"num_trees": T if T < 8 else "8+", "ops": len(case["ops"]),
+        return {"num_trees": T if T < 8 else ("8-29" if T < 30 else "30+"), "ops": len(case["ops"]),
                 "sample_lists": case["opts"]["sample_lists"],
                 "root_threshold": case["opts"]["root_threshold"],
                 "tracked": case["opts"]["tracked"] is not None}
@@ -869,12 +869,22 @@ class NavIter(Family):
     order, in the state of a fresh tree; the iterator's tree ends in the null state."""
     name = "nav_iter"
     workers = 8
+    prelude = "From TskVerif Require Import Base.Common C06.Model C06.IterProofs.\nOpen Scope Z_scope."
+    shard = 100
 
     def generate(self, rng, tier):
         for d in special_descs():
             yield {"desc": d, "opts": {"sample_lists": True, "tracked": None, "root_threshold": 1}}
         for _ in range(150 if tier == "quick" else 2000):
             d = random_ts_desc(rng)
+            yield {"desc": d, "opts": random_opts(rng, d)}
+        k = 0
+        while k < (60 if tier == "quick" else 600):     # small ts: also evaluated in Coq
+            d = many_trees_desc(rng, max_nodes=rng.choice([3, 5, 8]), max_segs=rng.choice([2, 4, 7]),
+                                scale=rng.choice([1, 0.5, 2.5]), p_internal=0.3)
+            if len(d["edges"]) > 10:
+                continue
+            k += 1
             yield {"desc": d, "opts": random_opts(rng, d)}
 
     def observe(self, case):
@@ -907,8 +917,45 @@ class NavIter(Family):
             mixed.append(it.add(tree_state(t, cmap)))
         except StopIteration:
             mixed.append("stop")
+        # ts.aslist(): copies of the iterator's tree (Tree.copy -> tsk_tree_copy with TSK_NO_INIT),
+        # each then navigated on its own (the copies must be independent of each other)
+        lst = ts.aslist(**kw)
+        aslist = [it.add(tree_state(t, cmap)) for t in lst]
+        moved = []
+        for i, t in enumerate(lst):
+            (t.next if i % 2 == 0 else t.prev)()
+            moved.append(it.add(tree_state(t, cmap)))
+        # every __next__ call (T + 2 of them) of a forward and of a reversed iterator
+        calls = {}
+        for name, mk in (("fwd", lambda: ts.trees(**kw)), ("rev", lambda: reversed(ts.trees(**kw)))):
+            itx = mk()
+            seq = []
+            for _ in range(ts.num_trees + 2):
+                try:
+                    next(itx)
+                    y = 1
+                except StopIteration:
+                    y = 0
+                seq.append([y, it.add(tree_state(itx.tree, cmap))])
+            calls[name] = seq
         return {"tab": table_obs(ts, cmap), "fresh": fresh, "fwd": fwd, "rev": rev, "end": end,
-                "again": again, "mixed": mixed, "states": it.states}
+                "again": again, "mixed": mixed, "states": it.states, "calls": calls,
+                "aslist": aslist, "aslist_moved": moved,
+                "flags": [int(f) for f in ts.tables.nodes.flags], "nsites": int(ts.num_sites)}
+
+    def coq_check(self, case, obs):
+        tab = obs["tab"]
+        if tab["N"] > 8 or len(tab["edges"]) > 10 or len(tab["bps"]) > 9:
+            return None
+        st = obs["states"]
+        tree_sites = [st[i]["sites"] for i in obs["fresh"]["at_index"]]
+        tracked0 = st[obs["fresh"]["null"]]["num_tracked"]
+        ts = coq_ts(tab, obs["flags"], tree_sites, obs["nsites"], tracked0, time_ranks(case["desc"]))
+        out = []
+        for name, fwd in (("fwd", "true"), ("rev", "false")):
+            exp = "; ".join("JL [JZ %s; %s]" % (cz(y), coq_J_state(st[si])) for y, si in obs["calls"][name])
+            out.append("check_iter ts %s [%s]" % (fwd, exp))
+        return "(let ts := %s in valid_tsb ts && %s)" % (ts, " && ".join(out))
 
     def oracle(self, case, obs):
         fr = obs["fresh"]["at_index"]
@@ -923,8 +970,20 @@ class NavIter(Family):
             fails.append((key, "iterator's tree after exhaustion: " + msg))
         if obs["again"]:
             fails.append(("iter-restarts", "next() after StopIteration yielded a tree"))
-        # mixed: first tree, then last(), then next(): last tree -> next enters null -> StopIteration
+        if obs["aslist"] != fr:
+            fails.append(("aslist-states", "aslist states %r, fresh %r" % (obs["aslist"], fr)))
+        nullst = obs["fresh"]["null"]
+        expm = [(fr[i + 1] if i + 1 < len(fr) else nullst) if i % 2 == 0 else (fr[i - 1] if i >= 1 else nullst)
+                for i in range(len(fr))]
+        if obs["aslist_moved"] != expm:
+            fails.append(("aslist-copies-not-independent", "%r expected %r" % (obs["aslist_moved"], expm)))
+        # call by call: yields T trees then StopIteration for ever, tree null afterwards
         T = len(fr)
+        for name, order in (("fwd", fr), ("rev", fr[::-1])):
+            exp = [[1, x] for x in order] + [[0, obs["fresh"]["null"]]] * 2
+            if obs["calls"][name] != exp:
+                fails.append(("iter-calls-" + name, "%r expected %r" % (obs["calls"][name], exp)))
+        # mixed: first tree, then last(), then next(): last tree -> next enters null -> StopIteration
         exp = [fr[0], fr[T - 1], "stop"]
         if len(obs["mixed"]) != 3 or obs["mixed"][2] != "stop":
             fails.append(("iter-mixed", "%r expected %r" % (obs["mixed"], exp)))
@@ -1053,11 +1112,18 @@ def coq_op(desc, op):
             "clear": "OpClear", "copy": "OpCopy", "swap": "OpSwap"}[k]
 
 
-def coq_ts(tab, flags, tree_sites, nsites, tracked0):
+def time_ranks(desc):
+    """Node times as dense ranks (the model only compares them)."""
+    ts = sorted(set(nd[1] for nd in desc["nodes"]))
+    return [ts.index(nd[1]) for nd in desc["nodes"]]
+
+
+def coq_ts(tab, flags, tree_sites, nsites, tracked0, times):
     edges = "[" + "; ".join("mkEdge %s %s %s %s" % (cz(l), cz(r), cz(p), cz(c)) for l, r, p, c in tab["edges"]) + "]"
-    return "(mkTs %s %s %s %s %s %s %s %s %s %s)" % (
+    return "(mkTs %s %s %s %s %s %s %s %s %s %s %s)" % (
         cz(tab["L2"]), cz(tab["N"]), edges, clist(tab["I"]), clist(tab["O"]), clist(tab["bps"]),
-        clist(flags), "[" + "; ".join(clist(x) for x in tree_sites) + "]", cz(nsites), clist(tracked0))
+        clist(flags), "[" + "; ".join(clist(x) for x in tree_sites) + "]", cz(nsites), clist(tracked0),
+        clist(times))
 
 
 def coq_J_state(st):
@@ -1147,7 +1213,7 @@ class Model(Family):
         tab = obs["tab"]
         tree_sites = [st[i]["sites"] for i in obs["fresh"]["at_index"]]
         tracked0 = st[obs["fresh"]["null"]]["num_tracked"]
-        ts = coq_ts(tab, obs["flags"], tree_sites, obs["nsites"], tracked0)
+        ts = coq_ts(tab, obs["flags"], tree_sites, obs["nsites"], tracked0, time_ranks(case["desc"]))
         exp = []
         for ret, exc, si, so, _ivf in obs["steps"]:
             code = RET_CODE[exc] if exc is not None else (2 if ret is None else int(ret))
@@ -1222,7 +1288,7 @@ class ModelExhaustive(Model):
         tab = obs["tab"]
         tree_sites = [st[i]["sites"] for i in obs["fresh"]["at_index"]]
         tracked0 = st[obs["fresh"]["null"]]["num_tracked"]
-        ts = coq_ts(tab, obs["flags"], tree_sites, obs["nsites"], tracked0)
+        ts = coq_ts(tab, obs["flags"], tree_sites, obs["nsites"], tracked0, time_ranks(case["desc"]))
         conj = ["valid_tsb ts"]
         for ops, steps in obs["runs"]:
             exp = []
@@ -1243,7 +1309,76 @@ class ModelExhaustive(Model):
         return []
 
 
-FAMILIES = [NavRandom, NavExhaustive, NavIter, SeekNan, Model, ModelExhaustive]
+class NavBlind(NavRandom):
+    """Inputs the other families rarely produce (extension round):
+      * very many trees (40-160): the binary search of tsk_tree_seek_from_null and long linear
+        seeks with wrap-around, non-integer scales (1/3, 0.1, 0.7, 1e-3, 1e6+0.5);
+      * positions exactly on every kind of breakpoint, one ulp below / above it, L - eps;
+      * seek / seek_index mixtures on BOTH trees right after copy();
+      * root_threshold > 1 together with sample_lists, tracked samples that are internal samples."""
+    name = "nav_blind"
+
+    def generate(self, rng, tier):
+        n = 60 if tier == "quick" else 1200
+        for k in range(n):
+            kind = k % 3
+            if kind == 0:       # many trees
+                T = 0
+                while T < 30:
+                    d = many_trees_desc(rng, max_nodes=rng.choice([4, 6, 9]), min_segs=40, max_segs=rng.choice([60, 160]),
+                                        p_gap=0.05, churn=3, max_sites=6, squash=0.5,
+                                        scale=rng.choice([1 / 3, 0.1, 0.7, 1e-3, 1e6 + 0.5, 1]))
+                    T = num_trees_of(d)
+                bps = gen_ts.breakpoints(d)
+                ops = []
+                for _ in range(rng.choice([10, 25])):
+                    r = rng.random()
+                    b = rng.randrange(0, T)
+                    if r < 0.35:
+                        pos = rng.choice([["h", 2 * bps[b]], ["above", bps[b]], ["h", bps[b] + bps[b + 1]]])
+                    elif r < 0.6:
+                        pos = ["below", bps[b + 1]]
+                    elif r < 0.7:
+                        pos = ["below", d["L"]]
+                    else:
+                        pos = None
+                    if rng.random() < 0.5:
+                        ops.append(["clear"])             # seek from the null state: binary search
+                    ops.append(["seek", pos] if pos else ["seek_index", rng.randrange(-T, T)])
+                    if rng.random() < 0.2:
+                        ops.append(rng.choice([["next"], ["prev"]]))
+                opts = random_opts(rng, d)
+            elif kind == 1:     # copy, then seeks on both trees
+                T = 0
+                while T < 2:
+                    d = many_trees_desc(rng, max_nodes=rng.choice([5, 8]), min_segs=3, max_segs=10,
+                                        scale=rng.choice([1 / 3, 0.1, 2.5, 1]), p_internal=0.4)
+                    T = num_trees_of(d)
+                ops = [rng.choice([["first"], ["last"], ["seek_index", rng.randrange(-T, T)], ["clear"]])]
+                for _ in range(rng.choice([4, 10])):
+                    ops.append(["copy"])
+                    for _ in range(rng.randrange(1, 4)):
+                        ops.append(rng.choice([["seek", random_pos(rng, d)], ["seek_index", rng.randrange(-T, T)],
+                                               ["ll_seek_index", rng.randrange(0, T)]]))
+                        if rng.random() < 0.5:
+                            ops.append(["swap"])
+                opts = {"sample_lists": True, "tracked": random_opts(rng, d)["tracked"],
+                        "root_threshold": rng.choice([1, 2, 3])}
+            else:               # root_threshold > 1 + sample_lists + internal tracked samples
+                T = 0
+                while T < 2:
+                    d = many_trees_desc(rng, max_nodes=rng.choice([6, 10]), min_segs=2, max_segs=6,
+                                        p_internal=0.6, p_root=0.35)
+                    T = num_trees_of(d)
+                samples = [i for i, nd in enumerate(d["nodes"]) if nd[0] & 1]
+                internal = [i for i in samples if d["nodes"][i][1] > 0]
+                tracked = sorted(set(internal + [x for x in samples if rng.random() < 0.3]))
+                opts = {"sample_lists": True, "tracked": tracked, "root_threshold": rng.choice([2, 3, 4])}
+                ops = random_ops(rng, d, T, rng.choice([15, 40]))
+            yield {"desc": d, "opts": opts, "ops": ops}
+
+
+FAMILIES = [NavRandom, NavExhaustive, NavIter, SeekNan, Model, ModelExhaustive, NavBlind]
 
 NOT_COVERED = [
     "children order (abstracted: the property says 'up to the order of children')",
